@@ -1763,8 +1763,8 @@ impl<'a, E: quiver_core::effects::Effect> Compiler<'a, E> {
             &value_provenance,
         )?;
         // The matched type, widened with nil when a runtime requirement can fail. That nil stands
-        // for "the match failed", not "the value is nil", so the complement recorded for later
-        // branches must be computed from `matched_type` instead.
+        // for "the match failed", not "the value is nil", so narrowing on the success path and the
+        // complement recorded for later branches must be computed from `matched_type` instead.
         let result_type = if can_fail && !binding_sets.is_empty() {
             let nil_id = self.program.register_type(Type::nil());
             typing::union_type_ids(self.program, vec![nil_id, matched_type])
@@ -1856,11 +1856,11 @@ impl<'a, E: quiver_core::effects::Effect> Compiler<'a, E> {
         // Apply narrowing to the matched value's provenance if the pattern narrows the type.
         // This is done here on the success path - the type has been narrowed by the pattern.
         // Note: result_type is the narrowed type from analyze_pattern.
-        if !self.is_never(result_type) && !self.is_nil(result_type) {
+        if !self.is_never(matched_type) && !self.is_nil(matched_type) {
             apply_narrowing(
                 &mut self.scopes,
                 &value_provenance,
-                result_type,
+                matched_type,
                 self.program,
             );
         }
@@ -2154,13 +2154,10 @@ impl<'a, E: quiver_core::effects::Effect> Compiler<'a, E> {
                 // Apply forward narrowing: if condition succeeded (non-nil), narrow to exclude nil.
                 // This enables type refinement like { a => %num.add[a, 1] } when a: [] | int.
                 if self.contains_nil(condition_type) {
-                    // Narrow the source value if it has trackable provenance. Narrow it to exclude
-                    // nil from *its own current type* — not from `condition_type`. For a plain
-                    // truthiness test (`a`) these coincide. For a `=PATTERN` match they don't: the
-                    // condition value is the verdict `Ok | []`, whose truthy part `Ok` is unrelated
-                    // to the matched value, so narrowing the provenance to `Ok` would collapse it to
-                    // never. `compile_match` has already narrowed the provenance to the matched
-                    // type, so dropping nil from that current type is the correct refinement.
+                    // Narrow the source value if it has trackable provenance, excluding nil from
+                    // its current type. Only a condition whose value *is* the source value carries
+                    // a provenance (a plain truthiness test such as `a`); a `=PATTERN` verdict
+                    // does not, and `compile_match` has already narrowed the matched value.
                     if !matches!(condition_prov, Provenance::Unknown) {
                         let current =
                             get_type_for_provenance(&self.scopes, &condition_prov, self.program);
@@ -2619,12 +2616,13 @@ impl<'a, E: quiver_core::effects::Effect> Compiler<'a, E> {
             let ty = self.compile_match(
                 pattern,
                 result_type,
-                current_prov.clone(),
+                current_prov,
                 on_no_match,
                 true, // Direct assignment returns Ok
                 narrowing,
             )?;
-            Ok((ty, current_prov))
+            // The verdict is not the matched value, so it has no provenance (see `Term::Match`).
+            Ok((ty, Provenance::Unknown))
         } else {
             Ok((result_type, current_prov))
         }
@@ -3909,13 +3907,13 @@ impl<'a, E: quiver_core::effects::Effect> Compiler<'a, E> {
                     true,
                     narrowing,
                 )?;
-                // Preserve the matched value's provenance: a chain/branch that follows a
-                // `=PATTERN` still narrows the original value (the match recorded its structural
-                // narrowing against this provenance inside `compile_match`). The term now yields
-                // the verdict `Ok`/`[]` rather than the matched value, so callers that interpret
-                // the *verdict* as the provenance's value (the `=>` forward nil-narrowing) guard
-                // against the disjoint verdict type collapsing the matched type to never.
-                Ok((ty, value_provenance))
+                // The term yields the verdict `Ok`/`[]`, not the matched value, so it does not
+                // carry the value's provenance: a non-nil verdict says the pattern matched, not
+                // that the value is non-nil (`=('bin | [])` matches a nil value), and a binder
+                // that follows (`n =x =b`) binds the verdict, not the value. The structural
+                // narrowing of the matched value was applied against its provenance inside
+                // `compile_match`.
+                Ok((ty, Provenance::Unknown))
             }
             ast::Term::Spawn(function, span) => {
                 let ty = self.compile_spawn(*function, value_type)?;
